@@ -139,8 +139,13 @@ def make_meta_adapter(S, sc, log, cur_job):
                 outcome = ln.outcome
                 if outcome == 'wrong' and WRONG_FOR.get(ln.method) != name:
                     outcome = 'valid'
-                if isinstance(outcome, tuple) and expected_calls(ln)[0] != name:
-                    outcome = 'valid'
+                if isinstance(outcome, tuple):
+                    # raise at the k-th adapter call made for this request (k = outcome[2], default 0)
+                    k = outcome[2] if len(outcome) > 2 else 0
+                    done = log['ncalls'].get(rid, 0)
+                    log['ncalls'][rid] = done + 1
+                    if done != min(k, max(len(expected_calls(ln)) - 1, 0)):
+                        outcome = 'valid'
             gate = sc.gate
             cond = None
             if gate and rid == gate[0] and name != 'initialize':
@@ -176,7 +181,14 @@ def make_data_adapter(S, sc, log, cur_job):
             S.yield_('callB', (name,))
             c.b = S.step_no
             log['calls'].append(c)
-            S.yield_('callE', (name, outcome))
+            cond = None
+            gate = sc.gate
+            if gate and name == 'subscribe' and not log.get('gated') and args and args[0] == log['lines_by_rid'][gate[0]].q[1]:
+                # this subscribe() blocks until the reply to a later request (for another item) has been written
+                log['gated'] = True
+                until = log['lines_by_rid'][gate[1]].wire_id.encode() + b'|'
+                cond = lambda: any(x.startswith(until) for x in log['sock'].sent)
+            S.yield_('callE', (name, outcome), cond=cond)
             c.e = S.step_no
             c.ok = not isinstance(outcome, tuple)
             if isinstance(outcome, tuple):
@@ -207,12 +219,12 @@ def make_handler(S, sc, log):
 
     class H(ExceptionHandler):
         def handle_ioexception(self, e):
-            S.yield_('handio', sc.handler[1])
+            S.yield_('handio', bool(sc.handler[1]))
             log['handio'].append((S.step_no, S.me().name if S.me() else 'ctl', repr(e)))
             return sc.handler[1]
 
         def handle_exception(self, e):
-            S.yield_('hand', sc.handler[0])
+            S.yield_('hand', bool(sc.handler[0]))
             log['hand'].append((S.step_no, S.me().name if S.me() else 'ctl', repr(e)))
             return sc.handler[0]
     return H()
@@ -239,7 +251,7 @@ class Run:
 def run(sc, chooser, max_steps=8000, eager=()):
     import lightstreamer_adapter.server as server
     S = dsched.Sched()
-    log = {'calls': [], 'hand': [], 'handio': [], 'job_rid': {}, 'lines_by_rid': {l.rid: l for l in sc.lines if l.rid is not None}}
+    log = {'calls': [], 'hand': [], 'handio': [], 'job_rid': {}, 'ncalls': {}, 'lines_by_rid': {l.rid: l for l in sc.lines if l.rid is not None}}
     cur_job = {}
     for j, ln in enumerate(static_served(sc)):
         log['job_rid'][j] = ln.rid
@@ -690,7 +702,8 @@ def oracle_c04(r):
         exp = expected_calls(l)
         raised = isinstance(l.outcome, tuple) and bool(exp)
         names = [c.name for c in cs]
-        want_names = exp[:1] if raised else exp
+        kraise = min(l.outcome[2] if (raised and len(l.outcome) > 2) else 0, max(len(exp) - 1, 0))
+        want_names = exp[:kraise + 1] if raised else exp
         if l.outcome == 'wrong' and l.method in WRONG_FOR and WRONG_FOR[l.method] in exp:
             if lines:
                 out.append(('request %s: wrong-typed return value but a reply was sent: %r' % (l.wire_id, lines[0][1][:80]), {'kind': 'wrong_type_replied', 'method': l.method}))
